@@ -620,20 +620,58 @@ def campaign(argv):
     else:
         events, found, _ = explore(chk, which, "campaign", opts, workers, ks_override=choose)
         ks = choose(events)
+    old = merge_corpus(found, which)
+    print("campaign %s/%s: %d k run, %d distinct keys (file now has %d)" % (which, mode, len(ks), len(found), len(old)))
+    print(json.dumps(chk.extra, indent=1, default=str)[:3000])
+
+
+def merge_corpus(found, which):
     old = {}
     if os.path.exists(CORPUS_KEYS):
         old = json.load(open(CORPUS_KEYS))
     for key, ent in found.items():
-        o = old.get(key, {})
-        old[key] = {"count": max(ent["count"], o.get("count", 0)), "root_cause": root_cause_of(key),
-                    "example_k": ent["example_k"], "component": which, "call_chain": ent["chain"],
-                    "what": ent["what"][:400]}
+        old[key] = {"count": ent["count"], "root_cause": root_cause_of(key), "example_k": ent["example_k"],
+                    "component": which, "call_chain": ent["chain"], "what": ent["what"][:500]}
     os.makedirs(os.path.dirname(CORPUS_KEYS), exist_ok=True)
     json.dump(old, open(CORPUS_KEYS, "w"), indent=1, sort_keys=True)
-    print("campaign %s/%s: %d k run, %d distinct keys (file now has %d)" % (which, mode, len(ks), len(found), len(old)))
-    print(json.dumps(chk.extra, indent=1, default=str)[:3000])
+    return old
+
+
+def reclassify(argv):
+    """python3 -m vf.props.c16 reclass <raw.json> enc|dec [opts...]: classify saved raw campaign results again with the
+    current code (run 0 is repeated to rebuild the event table; the numbering is deterministic)."""
+    raw = json.load(open(argv[0]))
+    which = argv[1]
+    opts = argv[2:] or enc_opts()
+    chk = core.Check("C16", "campaign", LEVEL)
+    events, info = run_sites(which, os.path.join(chk.dir, "re"), opts)
+    byk = {e.k: e for e in events}
+    x = exe(which)
+    ks = sorted(int(k) for k in raw["results"])
+    texts = symbolize_reports(x, [raw["results"][str(k)].get("err", "") for k in ks])
+    found = {}
+    held = collections.Counter()
+    for k, t in zip(ks, texts):
+        r = raw["results"][str(k)]
+        r["err"] = t
+        e = byk[k]
+        toks, verdict = classify(which, e, r, raw.get("baseline") or info["baseline"])
+        if verdict == "held":
+            held[API[which][e.phase]] += 1
+        if verdict != "violated":
+            continue
+        for tok, what in toks:
+            key = key_of(which, e, tok)
+            ent = found.setdefault(key, {"count": 0, "example_k": k, "what": what, "chain": list(e.chain_fns[:6])})
+            ent["count"] += 1
+    merge_corpus(found, which)
+    print("reclassified %d results: %d keys; held per api: %s" % (len(ks), len(found), dict(held)))
+    for key in sorted(found):
+        print("%4d %s k=%d" % (found[key]["count"], key, found[key]["example_k"]))
 
 
 if __name__ == "__main__":
     if len(sys.argv) > 1 and sys.argv[1] == "campaign":
         campaign(sys.argv[2:])
+    elif len(sys.argv) > 1 and sys.argv[1] == "reclass":
+        reclassify(sys.argv[2:])
